@@ -286,7 +286,7 @@ def check(prop, tier):
         h = hashlib.sha256(k.encode()).hexdigest()[:10]
         path = os.path.join(VERIF, "replays", "%s-%s-seed%d.json" % (prop, h, seed))
         json.dump(v, open(path, "w"), indent=1)
-        if cfg.get("minimise_mode") and not v.get("minimised"):
+        if cfg.get("minimise_mode") and not v.get("minimised") and len(new_viol) + len(unreproduced) < 4:
             menv = goenv()
             r = run([binary, "-mode", "minimise", "-file", path, "-out", path + ".min"], env=menv, capture_output=True, text=True, cwd=outdir)
             if r.returncode == 0 and os.path.exists(path + ".min"):
